@@ -7,7 +7,7 @@ from scapy.layers.inet6 import IPv6
 
 class QUICOutputbuilder:
     def __init__(self, decrypted_traffic, server_ip, client_ip, server_port, client_port, server_mac_address,
-                 client_mac_address, portmap, ipv6):
+                 client_mac_address, portmap, ipv6, keep_original_ports: bool = False):
         self.decrypted_traffic: list[Frame] = decrypted_traffic
         self.server_ip = server_ip
         self.client_ip = client_ip
@@ -19,10 +19,11 @@ class QUICOutputbuilder:
         self.ipv6 = ipv6
         self.out = []
 
-        if self.server_port in portmap.keys():
-            self.server_port = portmap[self.server_port]
-        else:
-            self.server_port = self.default_port
+        if keep_original_ports is False:
+            if self.server_port in portmap.keys():
+                self.server_port = portmap[self.server_port]
+            else:
+                self.server_port = self.default_port
 
     def build(self, metadata: bool):
         pn = self.decrypted_traffic[0].src_packet.packet_num
